@@ -18,6 +18,9 @@ PROFILES = [
   (0, 1, 1, 0), (24, 1, 1, 0), (25, 1, 1, 0), (30, 1, 1, 0), (30, 1000, 1001, 0), (24, 1000, 1001, 0),
   (25, 1, 1, 1), (25, 1, 1, 10), (30, 1, 1, 1000), (30, 1000, 1001, 1000), (24, 1, 1, 1000), (0, 1, 1, 10),
   (0, 1, 1, 1), (25, 1, 1, 10000000), (0, 1, 1, 1000), (30, 1000, 1001, 10), (50, 1, 1, 0), (60, 1000, 1001, 0),
+  # multipliers that give an effective rate that is not a whole number (12.5, 22.5 frames per second): the frames
+  # field counts up to the last whole frame below the rate
+  (25, 1, 2, 0), (30, 3, 4, 0), (25, 1, 2, 10),
 ]
 
 
@@ -162,9 +165,11 @@ VALUES = {
   "fontWeight": ["normal", "bold"], "visibility": ["visible", "hidden"], "wrapOption": ["wrap", "noWrap"],
   "textAlign": ["start", "center", "end"], "displayAlign": ["before", "center", "after"],
   "showBackground": ["always", "whenActive"],
+  # a numeric property whose values include 0 (a value is a value, also when it is falsy in the implementation language)
+  "opacity": ["0", "0.5", "1", "0", "0.25"],
 }
 CONTENT_PROPS = ["color", "backgroundColor", "fontStyle", "fontWeight", "visibility", "wrapOption", "textAlign"]
-REGION_PROPS = ["backgroundColor", "displayAlign", "showBackground", "visibility", "color"]
+REGION_PROPS = ["backgroundColor", "displayAlign", "showBackground", "visibility", "color", "opacity"]
 SET_PROPS = ["color", "backgroundColor", "visibility", "fontStyle"]
 
 
@@ -210,14 +215,14 @@ def gen_rich(rng, P, serial=0):
     if len(ids) >= 3 and rng.random() < 0.1:
       others = [x for x in ids if x != sid]
       refs = [others[0], others[1], others[0]]
-    doc["S"].append({"id": sid, "refs": refs, "attrs": rand_attrs(rng, CONTENT_PROPS + ["displayAlign"], 1, 3)})
+    doc["S"].append({"id": sid, "refs": refs, "attrs": rand_attrs(rng, CONTENT_PROPS + ["displayAlign", "opacity"], 1, 3)})
   forced = None
   if big:
     # one long chain s1 -> s2 -> ... -> sN; the value of a property comes from the NEAREST style of the chain that sets it
     S = doc["S"]
     for k, st in enumerate(S):
       st["refs"] = [ids[k + 1]] if k + 1 < len(S) else []
-      st["attrs"] = rand_attrs(rng, CONTENT_PROPS + ["displayAlign", "showBackground"], 1, 2) if (k >= len(S) - 3 or rng.random() < 0.3) else []
+      st["attrs"] = rand_attrs(rng, CONTENT_PROPS + ["displayAlign", "showBackground", "opacity"], 1, 2) if (k >= len(S) - 3 or rng.random() < 0.3) else []
     forced = "s1"
   elif nstyles >= 3 and rng.random() < 0.35:
     # a chain (or diamond) of three styles declared BEFORE the styles they reference, each contributing its own property:
